@@ -26,9 +26,11 @@ CONSTANTS MaxLen, Emit
 \* opcodes of the model: one per signature shape
 \*   Nop(0): none; Name(5): id, string; Capability(17): value enum; Store(62): id, id, optional
 \*   parameterised mask; Decorate(71): id, parameterised value enum; CompositeExtract(81):
-\*   result type, result id, id, variadic literals
-Ops == {0, 5, 17, 62, 71, 81}
+\*   result type, result id, id, variadic literals; CopyMemory(63): id, id, TWO optional parameterised masks
+\*   (the parameters of the first mask stand before the second mask)
+Ops == {0, 5, 17, 62, 63, 71, 81}
 FirstWords == {<<1, 0>>, <<3, 5>>, <<4, 5>>, <<2, 17>>, <<3, 62>>, <<4, 62>>, <<5, 62>>, <<3, 71>>, <<4, 71>>, <<4, 81>>, <<5, 81>>,
+               <<3, 63>>, <<4, 63>>, <<5, 63>>,
                <<1, 9>>}                                    \* (1, 9): an unknown opcode
 OperandWords == {<<0, 0>>,        \* id 0 / literal 0 / Matrix / RelaxedPrecision / empty mask / "" / word count 0
                  <<0, 1>>,        \* Shader / SpecId (literal parameter) / Volatile
